@@ -156,6 +156,21 @@ def stepLine (w : World) (line : String) : World × String :=
         | none => bad
       | none => bad
     | _, _ => bad
+  | "outfail" :: i :: cid :: rest =>
+    -- `_PeerTcpConnection.send_message` raised after the address rewrite (pickle / size / OS error; C01 owns what
+    -- follows): nothing was sent, the pending table is unchanged
+    match i.toNat?, cid.toNat?, parseMsg rest with
+    | some i, some cid, some m =>
+      match w.nodes[i]? with
+      | some n =>
+        match getConn n cid with
+        | some c =>
+          match c.rewriteOut m with
+          | .error e => (w, errStr e)
+          | .ok _ => (w, "exc:send-failed")
+        | none => bad
+      | none => bad
+    | _, _, _ => bad
   | "out" :: i :: cid :: rest =>
     match i.toNat?, cid.toNat?, parseMsg rest with
     | some i, some cid, some m =>
